@@ -629,6 +629,10 @@ class StateMachine:
         if state is None and self.__default_state is not None:
             state = self.__default_state
             if self.__state != state:
+                # execution of the regular states ceases here: that always
+                # goes through done(), like it does without a default state
+                if not done_called and (self.__state is not None or self.__engaged):
+                    self.done()
                 state.ran = False
                 self.__state = state
 
